@@ -49,6 +49,9 @@ Cases == {[kind |-> "key", ser |-> s, shape |-> sh, pwd |-> "none"] : s \in {"pr
          \* the compressed form keeps x and one bit of y: both parities for every shape of x (y shapes matter only through the parity)
          {[kind |-> "key", ser |-> "compressed", shape |-> sh, pwd |-> "none", par |-> pa] : sh \in Shapes, pa \in {"even", "odd"}} \cup
          {[kind |-> "key", ser |-> "pkcs8", shape |-> sh, pwd |-> p] : sh \in Shapes, p \in Pwds} \cup
+         \* the ends of the private-key range: d = 1 and d = n - 2 (the largest key GenerateKey can return)
+         {[kind |-> "key", ser |-> s, shape |-> sh, pwd |-> "none"] : s \in {"privhex", "pkcs8"}, sh \in {"d_one", "d_max"}} \cup
+         {[kind |-> "key", ser |-> "pkcs8", shape |-> sh, pwd |-> "ascii"] : sh \in {"d_one", "d_max"}} \cup
          {[kind |-> "sig", ser |-> "asn1sig", shape |-> sh, pwd |-> "none"] : sh \in Shapes} \cup
          {[kind |-> "cipher", ser |-> "asn1cipher", shape |-> sh, pwd |-> "none"] : sh \in {"plain", "lead0_1"}} \cup
          {[kind |-> "wrongpwd", ser |-> "pkcs8", shape |-> "plain", pwd |-> p] : p \in {"ascii", "utf8", "long"}} \cup
